@@ -213,7 +213,7 @@ theorem parseOptions_dump_needs_distinct :
 
 /-! ### entity tags -/
 
-/-- an entity tag of the domain: non-empty, no `"`, no LF (`.` of `_etag_re` does not match LF) -/
+/-- an entity tag of the domain: no `"`, no LF (`.` of `_etag_re` does not match LF) -/
 abbrev TagOk := Wz.Http.TagOk
 
 /-- `unquote_etag(quote_etag(e, weak)) == (e, weak)` for every tag without `"` (the empty tag
@@ -228,7 +228,7 @@ example : (quoteEtag ['W', '/', ' ', 'x'] true).map unquoteEtag = .ok (some (['W
 theorem etag_roundtrip_needs_no_quote : quoteEtag ['a', '"'] = .error "ValueError" := by decide
 
 /-- `parse_etags(ETags(strong, weak).to_header())` has the same strong and weak members, for every
-collection of non-empty tags without `"` and LF and for every iteration order of the two frozensets
+collection of tags without `"` and LF (empty tags included) and for every iteration order of the two frozensets
 (the lists are arbitrary orderings; equal lists give equal sets). -/
 theorem etags_roundtrip (strong weak : List Str)
     (hs : ∀ x ∈ strong, TagOk x = true) (hw : ∀ x ∈ weak, TagOk x = true) :
@@ -242,9 +242,10 @@ example : (∀ x ∈ [['a', ',', ' ', 'b'], ['*'], ['W', '/']], TagOk x = true) 
 /-- the star tag round-trips too -/
 theorem etags_star_roundtrip : parseEtags (etagsToHeader ⟨[], [], true⟩) = ⟨[], [], true⟩ := by decide
 
-/-- an empty tag is read back as Python's `None` (the `elif quoted:` test is falsy) -/
-theorem etags_roundtrip_needs_nonempty :
-    parseEtags (etagsToHeader ⟨[some []], [], false⟩) ≠ ⟨[some []], [], false⟩ := by decide
+/-- since the repair that keeps the empty entity tag, `""` round-trips as well (the theorem above
+does not ask for non-empty tags, a superset of the property's domain) -/
+theorem etags_empty_tag_roundtrip :
+    parseEtags (etagsToHeader ⟨[some []], [some []], false⟩) = ⟨[some []], [some []], false⟩ := by decide
 
 /-- a `"` inside a tag ends it early -/
 theorem etags_roundtrip_needs_no_quote :
@@ -292,6 +293,12 @@ theorem range_roundtrip_needs_open_last :
 /-- ... an empty range list -/
 theorem range_roundtrip_needs_nonempty :
     parseRangeHeader (rangeToHeader ⟨"bytes".toList, []⟩) ≠ .ok (some ⟨"bytes".toList, []⟩) := by decide
+
+/-- regression (repair 84dd3fe): a zero suffix length `-0` is refused; the value `(0, None)` is
+written `0-` and is unaffected -/
+theorem range_zero_suffix : parseRangeHeader "bytes=-0".toList = .ok none
+    ∧ parseRangeHeader (rangeToHeader ⟨"bytes".toList, [(0, none)]⟩) = .ok (some ⟨"bytes".toList, [(0, none)]⟩) := by
+  decide
 
 /-- units are lower-cased by the parser -/
 theorem range_roundtrip_needs_lower_units :
@@ -469,6 +476,16 @@ theorem param_auth_roundtrip (t : Str) (x : Str × Option Str) (d : Dict (Option
 example : SchemeOk "digest".toList = true
     ∧ (∀ y ∈ [("realm".toList, some "a b".toList), ("qop".toList, some "auth".toList)], KeyOk y.1 = true) := by decide
 
+/-- the same for `WWW-Authenticate` with a scheme other than `digest` (whose quoting differs) -/
+theorem www_param_roundtrip (t : Str) (x : Str × Option Str) (d : Dict (Option Str))
+    (ht : SchemeOk t = true) (hnd' : (t == "digest".toList) = false)
+    (hk : ∀ y ∈ x :: d, KeyOk y.1 = true)
+    (hnd : ((x :: d).map (·.1)).Nodup) (hv : x.2.isSome = true) :
+    (wwwToHeader ⟨t, x :: d, none⟩ >>= wwwFromHeader) = .ok (some ⟨t, x :: d, none⟩) :=
+  www_param_roundtrip_any t x d ht hnd' hk hnd hv
+
+example : SchemeOk "basic1".toList = true ∧ ("basic1".toList == "digest".toList) = false := by decide
+
 /-- an empty parameter dict serialises to a bare scheme, which reads back as an empty token -/
 theorem param_auth_roundtrip_needs_nonempty :
     (authorizationToHeader ⟨"digest".toList, [], none⟩ >>= authorizationFromHeader)
@@ -587,10 +604,9 @@ theorem etags_normal_form (strong weak : List Str)
   rw [etags_roundtrip_any strong weak hs hw]
   exact etags_roundtrip_any strong weak hs hw
 
-/-- for *arbitrary* header text the etag parser is not a normal form: the empty quoted tag `""`
-is stored as Python's `None`, which `to_header` writes as the four letters `None` -/
-theorem etags_normal_form_arbitrary_false :
-    parseEtags (etagsToHeader (parseEtags ['"', '"'])) ≠ parseEtags ['"', '"'] := by decide
+/-- the former `None` quirk is gone: the empty quoted tag is a fixed point of parse ∘ dump -/
+theorem etags_normal_form_empty_tag :
+    parseEtags (etagsToHeader (parseEtags ['"', '"'])) = parseEtags ['"', '"'] := by decide
 
 theorem range_normal_form (u : Str) (rs : List (Int × Option Int)) (hu : UnitsOk u = true)
     (hne : rs ≠ []) (hr : rangesOk 0 rs = true) :
